@@ -195,7 +195,16 @@ def gen_yinargs():
         if const in parg:
             an, elem = parg[const]
             rows_r.append("  (%s /- %s -/, %s, %s)" % (ex.lean_bytes(text), text.decode(), opt(an), "true" if elem else "false"))
+    # candidate repair of F340 (fixes/F340.diff): yin_parse_element_generic maps the argument-element keywords it can still meet
+    gen = ys.func_body(pa, "yin_parse_element_generic")
+    r1 = re.search(r"\(\*element\)->kw\s*==\s*LY_STMT_ARG_VALUE\s*\)\s*\{\s*\(\*element\)->kw\s*=\s*LY_STMT_VALUE\s*;", gen)
+    r2 = re.search(r"\(\*element\)->kw\s*==\s*LY_STMT_ARG_TEXT\s*\)\s*\{\s*\(\*element\)->kw\s*=\s*LY_STMT_NONE\s*;", gen)
+    if bool(r1) != bool(r2) or (not r1 and "LY_STMT_ARG_" in gen):
+        raise minic.Unsupported("yin_parse_element_generic: unexpected handling of LY_STMT_ARG_VALUE / LY_STMT_ARG_TEXT")
     out = [ex.HEADER, "import LyModel.Base", "namespace LyModel.Generated\n"]
+    out.append("/-- parser_yin.c, yin_parse_element_generic: an element matched as `LY_STMT_ARG_VALUE` is read as a `value` statement and one")
+    out.append("    matched as `LY_STMT_ARG_TEXT` is refused as unknown (repair of F340); `false`: both end in `LOGINT` -/")
+    out.append("def yinArgRemap : Bool := %s\n" % ("true" if r1 else "false"))
     out.append("/-- `YIN_NS_URI` -/\ndef yinNsUri : Bytes := %s\n" % ex.lean_bytes(yin_ns))
     out.append("/-- printer side: keyword (as `lysp_match_kw` and `lys_stmt_str` spell it) -> (`lys_stmt_arg`, `lys_stmt_flags & LY_STMT_FLAG_YIN`) -/")
     out.append("def yinStmtTable : List (Bytes × Option Bytes × Bool) := [\n" + ",\n".join(rows_p) + "\n]\n")
